@@ -271,7 +271,7 @@ def run(prog, rep):
                 cond_ok = True
     rep.ob("C11.3", hx, "encode", okh and lp_ok and cond_ok, "for i < len: out[2i] = table[(digest[i] >> 4) & 15], out[2i+1] = table[digest[i] & 15]" if (okh and lp_ok and cond_ok) else
            "the hex encoder does not write high nibble at 2i and low nibble at 2i+1 for i < len", hx.loc[0])
-    gs = hu.fn("p_crypto_hash_get_string")
+    gs = hu.fn("p_crypto_hash_get_string", raw=True).inlined(skip=("pp_crypto_hash_digest_to_hex",))
     al = [c for (b, i, c) in gs.calls() if c.get("callee") in ("p_malloc0", "p_malloc")]
     oka = len(al) == 1 and al[0].get("callee") == "p_malloc0"
     if oka:
@@ -294,6 +294,7 @@ def run(prog, rep):
         if len(ups) != 1 or len(fins) != 1 or len(rsts) != 1:
             raise AnalysisBroken("%s: expected one update/finish/reset function" % un)
         upf, fin, rst = ups[0], fins[0], rsts[0]
+        upf_inl = ups[0].inlined()
         lenp = upf.param_names()[2]
         lw = None
         for p in upf.params:
@@ -302,7 +303,7 @@ def run(prog, rep):
         # C11.4
         bad = []
         high_acc = False
-        for b, i, n in upf.nodes():
+        for b, i, n in upf_inl.nodes():
             if n["k"] == "bin" and n["op"] == ">>" and root_var(n["l"]) == lenp and (cv(n["r"]) or 0) >= 29:
                 high_acc = True
         for b, i, s in upf.stmts():
@@ -414,7 +415,7 @@ def run(prog, rep):
             rep.ob("C11.5", fin, "bitlength", okb, "bit length words: low = len_low << 3, high = (len_high << 3) | (len_low >> %d)" % (W - 3) if okb else
                    "the %d-bit bit-length words are not (len_low << 3) and ((len_high << 3) | (len_low >> %d)): messages of 2^%d bytes or more get a wrong length field" % (W, W - 3, W - 3), fin.loc[0])
         if un == "pcryptohash-gost3411.c":
-            sh = sorted((n["op"], cv(n["r"])) for (b, i, n) in upf.nodes() if n["k"] == "bin" and n["op"] in ("<<", ">>") and root_var(n["l"]) == lenp and cv(n["r"]) is not None)
+            sh = sorted((n["op"], cv(n["r"])) for (b, i, n) in upf_inl.nodes() if n["k"] == "bin" and n["op"] in ("<<", ">>") and root_var(n["l"]) == lenp and cv(n["r"]) is not None)
             okb = sh == [("<<", 3), (">>", 29)]
             rep.ob("C11.5", upf, "bitlength", okb, "GOST length in bits: (len << 3) low word, (len >> 29) next word" if okb else "GOST bit-length shifts are %s, expected << 3 and >> 29" % sh, upf.loc[0])
 
